@@ -166,6 +166,8 @@ def schema_bisim(a, b):
             return [v for v in out if v != NULL] + [v for v in out if v == NULL][:1]  # 'null' last, once
         if isinstance(x.get("type"), list) and len(x["type"]) > 1:
             rest = {k: v for k, v in x.items() if k != "type"}
+            if "null" in x["type"] and isinstance(rest.get("enum"), list):  # Optional[Literal / Enum]: null belongs to the 'null' alternative
+                rest["enum"] = [e for e in rest["enum"] if e is not None]
             out = [dict(NULL) if t == "null" else {**rest, "type": t} for t in x["type"]]
             return [v for v in out if v != NULL] + [v for v in out if v == NULL][:1]
         return [x]
